@@ -82,7 +82,9 @@ type (
 	stringD1 string
 )
 
-var utf16Encoder = unicode.UTF16(unicode.BigEndian, unicode.IgnoreBOM).NewEncoder() // ucs2 is utf16 actually
+// ucs2 is utf16 actually
+// encoder has internal state, so it can't be shared between images which are built concurrently
+var utf16Encoding = unicode.UTF16(unicode.BigEndian, unicode.IgnoreBOM)
 
 // volumeDescriptorHeader represents the data in bytes 0-6
 // of a Volume Descriptor as defined in ECMA-119 8.1
@@ -355,7 +357,7 @@ func mangleStrA(in string, joliet bool) stringA {
 	}, in)
 
 	if joliet {
-		ret, _ = utf16Encoder.String(ret)
+		ret, _ = utf16Encoding.NewEncoder().String(ret)
 	}
 
 	return stringA(ret)
@@ -377,7 +379,7 @@ func mangleStrD(in string, joliet bool) stringD {
 	}, in)
 
 	if joliet {
-		ret, _ = utf16Encoder.String(ret)
+		ret, _ = utf16Encoding.NewEncoder().String(ret)
 	}
 
 	return stringD(ret)
@@ -405,7 +407,7 @@ func mangleStrD1(in string, joliet bool) stringD1 {
 	}, in)
 
 	if joliet {
-		ret, _ = utf16Encoder.String(ret)
+		ret, _ = utf16Encoding.NewEncoder().String(ret)
 	}
 
 	return stringD1(ret)
